@@ -267,6 +267,64 @@ Proof.
   now rewrite app_nil_r.
 Qed.
 
+(* ---- lookups on a node whose state machine lags behind its log (C17 at the API layer) ---------- *)
+(* Session ids and message ids are raft indexes: along a log they strictly increase, and an entry
+   refers to a session that was created earlier.  [b] bounds everything seen before the log. *)
+Fixpoint ids_increase (b : N) (l : list (entry * oracle)) : Prop :=
+  match l with
+  | [] => True
+  | (e, _) :: r => (b < e_id e)%N /\ (e_session e <= e_id e)%N /\ ids_increase (e_id e) r
+  end.
+
+Lemma lastproc_apply o st e b :
+  (st_lastproc st <= b)%N -> (b < e_id e)%N -> (e_session e <= e_id e)%N ->
+  (st_lastproc (apply o st e) <= e_id e)%N.
+Proof.
+  intros Hb Hlt Hs. unfold apply.
+  destruct (e_type e); try (destruct (o_created o)); try destruct (is_dup st e);
+    try destruct (is_live st (e_session e)); cbn [st_lastproc set_lastproc add_session set_last map_sessions]; lia.
+Qed.
+
+Lemma lastproc_replay l : forall st b,
+  (st_lastproc st <= b)%N -> ids_increase b l ->
+  exists b', (st_lastproc (replay l st) <= b')%N /\ (b <= b')%N /\
+             (forall e o r, ids_increase b (l ++ (e, o) :: r) -> (b' < e_id e)%N).
+Proof.
+  induction l as [|[e o] r IH]; intros st b Hb Hinc; cbn [replay].
+  - exists b. repeat split; [assumption|lia|]. intros e o r H. cbn in H. tauto.
+  - destruct Hinc as (Hlt & Hs & Hr).
+    destruct (IH (apply o st e) (e_id e) (lastproc_apply o st e b Hb Hlt Hs) Hr) as (b' & H1 & H2 & H3).
+    exists b'. repeat split; [assumption|lia|]. intros e' o' r' H. cbn in H. destruct H as (_ & _ & H). now apply (H3 e' o' r').
+Qed.
+
+(* A handler that answers from a replay of any strict prefix l1 of the log never says "No such
+   session" for the id of an entry that is still ahead of it — in particular for a session whose
+   CreateSession entry is in the log but not yet applied: the answer is "not yet seen". *)
+Theorem lagging_view_not_gone st0 b l1 e o l2 :
+  (st_lastproc st0 <= b)%N -> ids_increase b (l1 ++ (e, o) :: l2) ->
+  get_session (replay l1 st0) (e_id e) <> GsNoSuch.
+Proof.
+  intros Hb Hinc.
+  assert (Hpre : ids_increase b l1).
+  { clear - Hinc. revert b Hinc. induction l1 as [|[x ox] r IH]; intros b H; cbn in *; [exact I|].
+    destruct H as (H1 & H2 & H3). auto. }
+  destruct (lastproc_replay l1 st0 b Hb Hpre) as (b' & H1 & _ & H3).
+  specialize (H3 e o l2 Hinc). unfold get_session.
+  assert (N.ltb (e_id e) (st_lastproc (replay l1 st0)) = false) as Hf by (apply N.ltb_ge; lia).
+  rewrite Hf. destruct (lookup (e_id e) (st_sessions (replay l1 st0))) as [s|]; [destruct (s_alive s)|]; discriminate.
+Qed.
+
+Corollary lagging_check_not_gone st0 b l1 e o l2 hdr t :
+  (st_lastproc st0 <= b)%N -> ids_increase b (l1 ++ (e, o) :: l2) ->
+  parse_uint0 t = Some (e_id e) ->
+  session_check (replay l1 st0) hdr t <> inr RNoSuch.
+Proof.
+  intros Hb Hinc Hp. pose proof (lagging_view_not_gone st0 b l1 e o l2 Hb Hinc) as H.
+  unfold session_check. rewrite Hp. destruct hdr as [h|]; simpl; [|discriminate].
+  destruct (is_empty h); [discriminate|].
+  destruct (get_session (replay l1 st0) (e_id e)) as [s| |]; [destruct (String.eqb h (s_auth s)); discriminate|congruence|discriminate].
+Qed.
+
 (* ---- the DELETE handler ------------------------------------------------------------------------- *)
 Lemma cut_line_no_line_end d c : is_line_end c = true -> contains_char c (cut_line d) = false.
 Proof.
